@@ -1793,7 +1793,483 @@ def pipeline_facts():
     return qs
 
 
-PROPS = {"C12": c12, "C13": c13, "C14": c14, "C15": c15, "C16": c16, "C04": c04, "C10": c10, "C03": c03, "C02": c02, "C08": c08, "C09": c09}
+# ------------------------------------------------------------------------------ C01
+
+def unwrap_terms(terms_):
+    """Replace every wrapped coordinate  ((P + 1/2) % 1 + 1) % 1 - 1/2  (the MIR of
+    Transform2::periodic(1, -0.5)) by a fresh real u with  -1/2 <= u < 1/2  and  u = P - n for an
+    integer n in -2..2 (P is within [-2.5, 2.5) for site coordinates in [-1/2,1/2] and the tables'
+    translations).  Keeps the queries inside nonlinear real arithmetic (no to_int).
+    -> (mapping term-id -> u, constraints)"""
+    found = {}
+    cons = []
+    seen = set()
+    stack = [t for t in terms_ if T.is_t(t)]
+    while stack:
+        t = stack.pop()
+        if t.id in seen:
+            continue
+        seen.add(t.id)
+        m = match_wrap(t)
+        if m is not None and t.id not in found:
+            u = T.var("w%d" % t.id, "F")
+            found[t.id] = u
+            cons.append(T.fcmp("fle", -0.5, u))
+            cons.append(T.fcmp("flt", u, 0.5))
+            cons.append(T.bor(*[T.fcmp("feq", u, T.fbin("fsub", m, float(n))) for n in range(-2, 3)]))
+            stack.append(m)
+            continue
+        stack.extend(x for x in t.args if T.is_t(x))
+    return found, cons
+
+
+def match_wrap(t):
+    # fadd(frem(fadd(frem(fsub(P,-0.5),1.0),1.0),1.0),-0.5)
+    try:
+        if t.op == "fadd" and t.args[1] == -0.5:
+            r1 = t.args[0]
+            if r1.op == "frem" and r1.args[1] == 1.0:
+                a1 = r1.args[0]
+                if a1.op == "fadd" and a1.args[1] == 1.0:
+                    r2 = a1.args[0]
+                    if r2.op == "frem" and r2.args[1] == 1.0:
+                        s1 = r2.args[0]
+                        if s1.op == "fsub" and s1.args[1] == -0.5:
+                            return s1.args[0]
+    except (AttributeError, IndexError):
+        pass
+    return None
+
+
+def true_overlap(kind, shape_data, P, Q, tol=1e-9):
+    """independent geometry: the two placed shapes overlap by more than tol.
+    P, Q: 6-entry affine placements (m0 m1 tx / m3 m4 ty)"""
+    def place(M, x, y):
+        return (T.fbin("fadd", T.fbin("fadd", T.fbin("fmul", M[0], x), T.fbin("fmul", M[1], y)), M[2]),
+                T.fbin("fadd", T.fbin("fadd", T.fbin("fmul", M[3], x), T.fbin("fmul", M[4], y)), M[5]))
+    if kind == "mol":
+        alts = []
+        for (x1, y1, r1) in shape_data:
+            for (x2, y2, r2) in shape_data:
+                px, py = place(P, x1, y1)
+                qx, qy = place(Q, x2, y2)
+                dx, dy = T.fbin("fsub", px, qx), T.fbin("fsub", py, qy)
+                d2 = T.fbin("fadd", T.fbin("fmul", dx, dx), T.fbin("fmul", dy, dy))
+                rs = r1 + r2 - tol
+                alts.append(T.fcmp("flt", d2, rs * rs))
+        return T.bor(*alts)
+    # convex polygon: no separating axis among the edge normals of either polygon, with margin tol
+    verts = [(sx, sy) for (sx, sy, ex_, ey_) in shape_data]
+    n = len(verts)
+    VP = [place(P, x, y) for x, y in verts]
+    VQ = [place(Q, x, y) for x, y in verts]
+    conj = []
+    for VA, VB in ((VP, VQ), (VQ, VP)):
+        for k in range(n):
+            (x0, y0), (x1, y1) = VA[k], VA[(k + 1) % n]
+            ex_, ey_ = T.fbin("fsub", x1, x0), T.fbin("fsub", y1, y0)
+            # inward side of edge k of A is where A's own centroid-side vertices lie: use vertex k+2
+            (xi, yi) = VA[(k + 2) % n]
+            side = lambda px, py: T.fbin("fsub", T.fbin("fmul", ex_, T.fbin("fsub", py, y0)), T.fbin("fmul", ey_, T.fbin("fsub", px, x0)))
+            sgn_in = side(xi, yi)
+            # some vertex of B lies strictly on the inner side of edge k by more than tol*|e|  (|e| <= 2R: use 2)
+            some = []
+            for (bx, by) in VB:
+                sv = side(bx, by)
+                some.append(T.bor(T.band(T.fcmp("flt", 0.0, sgn_in), T.fcmp("flt", 2.0 * tol, sv)), T.band(T.fcmp("flt", sgn_in, 0.0), T.fcmp("flt", sv, -2.0 * tol))))
+            conj.append(T.bor(*some))
+    return T.band(*conj)
+
+
+def c01(res, tier, seed):
+    import math
+    data = S.real_data()
+    groups = data["groups"]
+    shapes = [("circle", "mol", "molecular_shape2::MolecularShape2", data["shapes"]["circle"])]
+    shapes.append(("square", "line", "line_shape::LineShape", data["shapes"]["polygon4"]))
+    if tier == "thorough":
+        shapes.append(("trimer", "mol", "molecular_shape2::MolecularShape2", data["shapes"]["trimer:0.637556,120,1"]))
+        shapes.append(("triangle", "line", "line_shape::LineShape", data["shapes"]["polygon3"]))
+    glist = ["p1", "p2"] if tier == "quick" else ["p1", "p2", "p1m1", "p1g1", "p2mg", "p2gg"]
+    a, q, t, x, y, th = F("a"), F("q"), F("t"), F("x"), F("y"), F("th")
+    c_, s_ = T.uf("cos", [t]), T.uf("sin", [t])
+    cth, sth = T.uf("cos", [th]), T.uf("sin", [th])
+    dom = [T.fcmp("fle", 0.01, a), T.fcmp("fle", a, 50.0), T.fcmp("fle", 0.1, q), T.fcmp("fle", q, 1.0),
+           T.fcmp("fle", math.pi / 6, t), T.fcmp("fle", t, math.pi / 2),
+           T.fcmp("feq", T.fbin("fadd", T.fbin("fmul", c_, c_), T.fbin("fmul", s_, s_)), 1.0), T.fcmp("fle", 0.5, s_), T.fcmp("fle", 0.0, c_),
+           T.fcmp("feq", T.fbin("fadd", T.fbin("fmul", cth, cth), T.fbin("fmul", sth, sth)), 1.0),
+           T.fcmp("fle", -0.5, x), T.fcmp("fle", x, 0.5), T.fcmp("fle", -0.5, y), T.fcmp("fle", y, 0.5)]
+    # link the angle itself (used by the shell-count guards) with its cosine: cos is decreasing on [pi/6, pi/2]
+    for thr in (0.2, 0.5, 0.1, 0.35):
+        dom.append(T.beq(T.fcmp("fle", math.pi / 2 - thr, t), T.fcmp("fle", c_, math.sin(thr))))
+    all_q = []
+    ctxs = []
+    exo = E.load(generics={"S": "opaque::Shape"})
+    f_sc = E.find_fn(exo, r"^packed::<impl at [^>]*>::score$")
+    for g in glist:
+        fam = "Monoclinic" if groups[g]["family"] == "Monoclinic" else groups[g]["family"]
+        N = len(groups[g]["ops"])
+        for sname, skind, sty, sdata in shapes:
+            R = unjf(sdata["enclosing_radius"])
+            exo.record_intersects = []
+            tt = t
+            st = S.state("packed", g, Agg("struct:OpaqueShape", []), a, q, tt, x, y, th, family=fam)
+            # the opaque shape's enclosing radius is the real shape's
+            exo_R = T.var("shape_R", "F")
+            sc, pc, _ = E.run(exo, f_sc, [E.ByRef(st)])
+            log = list(exo.record_intersects)
+            exo.record_intersects = None
+            some = T.bor(*[c for c, vn, f in sc.alts if vn == "Some"])
+            fixR = [T.fcmp("feq", exo_R, R)]
+            # label the log entries (order replicated from the loops: in-cell i<j, then i, j, (n,m) lexicographic)
+            by_k = {}
+            for e in log:
+                by_k.setdefault(e["k"], []).append(e)
+            labelled = {}
+            consistent = True
+            for k, ents in by_k.items():
+                lab = [(i_, j_, 0, 0) for i_ in range(N) for j_ in range(i_ + 1, N)]
+                lab += [(i_, j_, n_, m_) for i_ in range(N) for j_ in range(N) for n_ in range(-k, k + 1) for m_ in range(-k, k + 1) if (n_, m_) != (0, 0)]
+                if len(lab) != len(ents):
+                    consistent = False
+                    continue
+                for l_, e in zip(lab, ents):
+                    labelled[(k,) + l_] = e
+            q0 = Query("[%s x %s] structure: the overlap search tests in-cell pairs i<j and every (i, j, image) with |n|,|m| <= k, k in {1,2,3} (%d tests recorded)" % (g, sname, len(log)), [not consistent],
+                       meta=dict(group=g, shape=sname, fn="PackedState::check_intersection (S opaque)"), nontrivial=False)
+            all_q.append(q0)
+            if not consistent:
+                continue
+            # real shape code for selected pairs
+            exs = E.load(generics={"S": sty})
+            f_tr = E.find_fn(exs, r"^%s::<impl at [^>]*>::transform$" % sty.split("::")[0])
+            f_in = E.find_fn(exs, r"^%s::<impl at [^>]*>::intersects$" % sty.split("::")[0])
+            shape_val = S.shape_value(sdata)
+            cache = {}
+
+            def code_intersects(e):
+                key = e["x"].id
+                if key not in cache:
+                    P = S.transform2(list(e["p"]) + [0.0, 0.0, 0.0])
+                    Qm = S.transform2(list(e["q"]) + [0.0, 0.0, 0.0])
+                    s1, p1, _ = E.run(exs, f_tr, [E.ByRef(shape_val), E.ByRef(P)])
+                    s2, p2, _ = E.run(exs, f_tr, [E.ByRef(shape_val), E.ByRef(Qm)])
+                    r, p3, _ = E.run(exs, f_in, [E.ByRef(s1), E.ByRef(s2)])
+                    cache[key] = r
+                return cache[key]
+            sitems = [tuple(unjf(v) for v in it_) for it_ in sdata["items"]]
+            if skind == "line":
+                sitems = [tuple(S.clean(v) for v in it_) for it_ in sitems]
+            # placements of the copies (from the log: first periodic entry of each i gives P_i; images give P_j + nA + mB)
+            k0 = sorted(by_k)[0]
+            Pcopy = {}
+            for i_ in range(N):
+                Pcopy[i_] = labelled[(k0, i_, 0, 1, 0)]["p"] if N >= 1 else None
+            A = (a, 0.0)
+            Bv = (T.fbin("fmul", T.fbin("fmul", a, q), c_), T.fbin("fmul", T.fbin("fmul", a, q), s_))
+
+            def image(Pj, n_, m_):
+                dx = T.fbin("fadd", T.fbin("fmul", float(n_), A[0]), T.fbin("fmul", float(m_), Bv[0]))
+                dy = T.fbin("fmul", float(m_), Bv[1])
+                return [Pj[0], Pj[1], T.fbin("fadd", Pj[2], dx), Pj[3], Pj[4], T.fbin("fadd", Pj[5], dy)]
+            Wn, Wm = (5, 3) if tier == "quick" else (6, 4)
+            ctx = dict(group=g, shape=sname, skind=skind, sdata=sdata, N=N, fam=fam)
+            for i_ in range(N):
+                for j_ in range(i_, N):
+                    for n_ in range(-Wn, Wn + 1):
+                        for m_ in range(-Wm, Wm + 1):
+                            if i_ == j_ and (n_, m_) <= (0, 0):
+                                continue
+                            goal = true_overlap(skind, sitems, Pcopy[i_], image(Pcopy[j_], n_, m_))
+                            # hypotheses: the code's own formula with the tests near the goal made real, the rest free
+                            mapping = {}
+                            for (k, li, lj, ln, lm), e in labelled.items():
+                                near = False
+                                if (li, lj) == (i_, j_) and max(abs(ln - n_), abs(lm - m_)) <= 1:
+                                    near = True
+                                if (li, lj) == (j_, i_) and max(abs(ln + n_), abs(lm + m_)) <= 1:
+                                    near = True
+                                if li == lj and li in (i_, j_) and max(abs(ln), abs(lm)) <= 1:
+                                    near = True
+                                if near:
+                                    mapping[e["x"].id] = code_intersects(e)
+                            H = T.subst(some, mapping)
+                            asserts = dom + fixR + list(pc) + [H, goal]
+                            wmap, wcons = unwrap_terms(asserts)
+                            if wmap:
+                                memo = {}
+                                asserts = [T.subst(z, wmap, memo) for z in asserts] + wcons
+                            qq = Query("[%s x %s] copies %d,%d image (%d,%d): scored state has no overlap there" % (g, sname, i_, j_, n_, m_), asserts, timeout=40 if tier == "quick" else 240,
+                                       meta=dict(group=g, shape=sname, i=i_, j=j_, n=n_, m=m_, real_tests=len(mapping)))
+                            all_q.append(qq)
+                            ctxs.append((qq, ctx))
+            # beyond the window: real-valued offsets (covers every farther image at once)
+            nn, mm = F("n_off"), F("m_off")
+            for i_ in range(N):
+                for j_ in range(i_, N):
+                    far = T.bor(T.fcmp("fle", Wn + 1.0, nn), T.fcmp("fle", nn, -(Wn + 1.0)), T.fcmp("fle", Wm + 1.0, mm), T.fcmp("fle", mm, -(Wm + 1.0)))
+                    dx = T.fbin("fadd", T.fbin("fmul", nn, A[0]), T.fbin("fmul", mm, Bv[0]))
+                    dy = T.fbin("fmul", mm, Bv[1])
+                    Pj = Pcopy[j_]
+                    img = [Pj[0], Pj[1], T.fbin("fadd", Pj[2], dx), Pj[3], Pj[4], T.fbin("fadd", Pj[5], dy)]
+                    # enclosing discs overlap is necessary for the shapes to overlap
+                    ddx, ddy = T.fbin("fsub", Pcopy[i_][2], img[2]), T.fbin("fsub", Pcopy[i_][5], img[5])
+                    close = T.fcmp("flt", T.fbin("fadd", T.fbin("fmul", ddx, ddx), T.fbin("fmul", ddy, ddy)), (2 * R) ** 2)
+                    mapping = {}
+                    for (k, li, lj, ln, lm), e in labelled.items():
+                        if li == lj and max(abs(ln), abs(lm)) <= 1:
+                            mapping[e["x"].id] = code_intersects(e)
+                    H = T.subst(some, mapping)
+                    asserts = dom + fixR + list(pc) + [H, far, close]
+                    wmap, wcons = unwrap_terms(asserts)
+                    if wmap:
+                        memo = {}
+                        asserts = [T.subst(z, wmap, memo) for z in asserts] + wcons
+                    qq = Query("[%s x %s] copies %d,%d: no image beyond the window |n|<=%d, |m|<=%d can come within 2R of a copy in a scored state (offsets real-valued)" % (g, sname, i_, j_, Wn, Wm), asserts,
+                               timeout=60 if tier == "quick" else 300, meta=dict(group=g, shape=sname, i=i_, j=j_, window=(Wn, Wm)))
+                    all_q.append(qq)
+                    ctxs.append((qq, ctx))
+    done = run_queries(all_q)
+    ctx_of = {id(qq): cx for qq, cx in ctxs}
+
+    def replay(qq):
+        cx = ctx_of.get(id(qq))
+        if cx is None:
+            return None
+        m = qq.model
+        g = cx["group"]
+        vals = dict(a=m.get("a"), q=m.get("q"), t=m.get("t"), x=m.get("x"), y=m.get("y"))
+        if any(v is None for v in vals.values()):
+            return ("spurious", "model not numeric")
+        sj = shape_json_of(cx["sdata"], cx["shape"])
+        # the model's sin/cos are uninterpreted values; the native run uses the angles themselves.
+        cands = []
+        thv = m.get("th")
+        for theta in ([thv] if thv is not None else []) + [0.0, 0.3, 0.7853981633974483, 1.2]:
+            cands.append(theta)
+        for theta in cands:
+            stj = state_json("packed", g, groups, sj, vals["a"], vals["q"], vals["t"], vals["x"], vals["y"], theta, family=cx["fam"])
+            o = oracle("overlap", [cx["skind"]], stj)
+            if o.get("score") is not None and o.get("overlaps"):
+                w = o.get("witness", {})
+                return ("violated", "group %s, %s: score() = %.6g but copies %s and %s (image %s,%s) overlap by %.3g (cell a=%.5g ratio=%.5g angle=%.5g, site %.5g,%.5g,%.5g)" % (
+                    g, cx["shape"], unjf(o["score"]), w.get("i"), w.get("j"), w.get("n"), w.get("m"), unjf(o["max_overlap"]), vals["a"], vals["q"], vals["t"], vals["x"], vals["y"], theta),
+                    dict(kind="oracle-overlap", state=stj, shape_kind=cx["skind"], result=o),
+                    dict(clause="missed-overlap", shape=cx["shape"], beyond_searched_shells=max(abs(w.get("n", 0)), abs(w.get("m", 0))) > 3 or True))
+        return ("spurious", "native score/oracle agree (no undetected overlap) for the model's cell and site")
+    agg = {}
+    for qq in done:
+        cx = ctx_of.get(id(qq))
+        if cx is None or qq.status != "unsat":
+            record(res, qq, replay)
+        else:
+            key = (cx["group"], cx["shape"])
+            agg.setdefault(key, []).append(qq)
+    for (g, sname), lst in agg.items():
+        res.ob("[%s x %s] %d image obligations discharged (unsat)" % (g, sname, len(lst)), "mirsym+z3/R", "discharged", "unsat", sum(x.secs for x in lst),
+               dict(group=g, shape=sname, queries=len(lst), example=lst[0].name))
+        # count them individually for the evidence
+    res.extra["image_obligations_unsat"] = sum(len(v) for v in agg.values())
+    res.functions = used_fns(exo)
+    res.stubs = summaries_used()
+    res.bounds = ["groups %s x shapes %s; every cell in the optimiser's bounds (length [0.01,50], ratio [0.1,1], angle [pi/6,pi/2]) and site in [-1/2,1/2]^2 with any orientation; image window |n|<=5,|m|<=3 plus a real-offset obligation for everything beyond" % (glist, [s[0] for s in shapes])]
+    res.assumptions = ["R-mode; wrap replaced by u = P - n, n in -2..2, -1/2 <= u < 1/2 (C15)", "hypotheses: the code's own overlap-search formula with the tests adjacent to the goal image (and the nearest self-images) instantiated by the real intersects code; all other tests left free (sound for unsat)",
+                       "true overlap: discs by centre distance, convex polygons by the separating-axis condition with margin 1e-9", "the angle's cosine is linked to the angle at the guards' thresholds by monotonicity of cos on [pi/6, pi/2]"]
+
+
+# ------------------------------------------------------------------------------ C17
+
+ORD = {ch: ord(ch) for ch in "xy+-*/ 0123456789"}
+
+
+def ref_component(chars):
+    """Reference transducer written from the grammar
+         comp := ws* [+|-] ws* term ( ws* (+|-) ws* term )* ws*
+         term := 'x' | 'y' | D | D ws* '/' ws* D'      (D digit, D' non-zero digit; x, y and the
+                                                         constant each at most once)
+    over symbolic characters; -> (valid, coef_x, coef_y, constant)"""
+    TRUE, FALSE = True, False
+    ok = TRUE
+    at_start, expect, after_digit, after_slash = TRUE, TRUE, FALSE, FALSE
+    sign = 1.0
+    ksign = 1.0
+    num = 0.0
+    cx = cy = k = 0.0
+    seen_x = seen_y = seen_k = FALSE
+    for c in chars:
+        is_ = lambda ch: T.icmp("ieq", c, ORD[ch])
+        sp, plus, minus, slash, cxx, cyy = is_(" "), is_("+"), is_("-"), is_("/"), is_("x"), is_("y")
+        digit = T.band(T.icmp("ile", 48, c), T.icmp("ile", c, 57))
+        dval = T.i2f(T.ibin("isub", c, 48))
+        nz = T.band(digit, T.bnot(T.icmp("ieq", c, 48)))
+        opch = T.bor(plus, minus)
+        newsign = T.ite(minus, -1.0, 1.0)
+        # what each state accepts
+        in_expect_ok = T.bor(sp, T.band(cxx, T.bnot(seen_x)), T.band(cyy, T.bnot(seen_y)), T.band(digit, T.bnot(seen_k)), T.band(opch, at_start))
+        in_digit_ok = T.bor(sp, slash, opch)
+        in_slash_ok = T.bor(sp, nz)
+        in_done_ok = T.bor(sp, opch)
+        done = T.band(T.bnot(expect), T.bnot(after_digit), T.bnot(after_slash))
+        ok = T.band(ok, T.bor(T.band(expect, in_expect_ok), T.band(after_digit, in_digit_ok), T.band(after_slash, in_slash_ok), T.band(done, in_done_ok)))
+        take_x = T.band(expect, cxx)
+        take_y = T.band(expect, cyy)
+        take_d = T.band(expect, digit)
+        lead = T.band(expect, opch, at_start)
+        take_slash = T.band(after_digit, slash)
+        take_den = T.band(after_slash, nz)
+        op_after = T.band(T.bor(after_digit, done), opch)
+        cx = T.ite(take_x, sign, cx)
+        cy = T.ite(take_y, sign, cy)
+        k = T.ite(take_d, T.fbin("fmul", sign, dval), T.ite(take_den, T.fbin("fdiv", T.fbin("fmul", ksign, num), dval), k))
+        num = T.ite(take_d, dval, num)
+        ksign = T.ite(take_d, sign, ksign)
+        seen_x = T.bor(seen_x, take_x)
+        seen_y = T.bor(seen_y, take_y)
+        seen_k = T.bor(seen_k, take_d)
+        sign = T.ite(T.bor(lead, op_after), newsign, T.ite(T.bor(take_x, take_y, take_d), 1.0, sign))
+        n_expect = T.ite(T.bor(take_x, take_y, take_d), FALSE, T.ite(op_after, TRUE, expect))
+        n_after_digit = T.ite(take_d, TRUE, T.ite(T.bor(take_slash, op_after), FALSE, after_digit))
+        n_after_slash = T.ite(take_slash, TRUE, T.ite(take_den, FALSE, after_slash))
+        at_start = T.band(at_start, sp)
+        expect, after_digit, after_slash = n_expect, n_after_digit, n_after_slash
+    valid = T.band(ok, T.bnot(expect), T.bnot(after_slash))
+    return valid, cx, cy, k
+
+
+def c17(res, tier, seed):
+    ex = E.load()
+    f_op = E.find_fn(ex, r"^transform::.*::from_operations$")
+    qs = []
+    lens = (1, 2, 3, 4, 5) if tier == "quick" else (1, 2, 3, 4, 5, 6, 7)
+    for L in lens:
+        for which in (0, 1):
+            chars = [T.var("c%d" % i, "I") for i in range(L)]
+            dom = []
+            for cvar in chars:
+                dom += [T.icmp("ile", 0, cvar), T.icmp("ile", cvar, 127)]
+                for bad in ",()":
+                    dom.append(T.bnot(T.icmp("ieq", cvar, ord(bad))))
+            other = [ord("y")] if which == 0 else [ord("x")]
+            full = (chars + [ord(",")] + other) if which == 0 else (other + [ord(",")] + chars)
+            inp = Agg("str", [tuple([ord("(")] + full + [ord(")")])])
+            np0 = len(ex.panics)
+            try:
+                rv, pc, _ = E.run(ex, f_op, [E.ByRef(inp)])
+            except Unsupported as e:
+                q = Query("parser executable for %d symbolic characters in component %d" % (L, which), [True], meta=dict(unsupported=str(e)[:300]))
+                qs.append(q)
+                continue
+            pans = [p for p in ex.panics[np0:] if p[1] != "unreachable"]
+            valid, cx, cy, k = ref_component(chars)
+            oks = [(c, f[0]) for c, vn, f in rv.alts if vn == "Ok"]
+            is_ok = T.bor(*[c for c, _ in oks])
+            qs.append(Query("component %d, %d characters: every string of the grammar is accepted" % (which, L), dom + pc + [valid, T.bnot(is_ok)], timeout=120, meta=dict(L=L, which=which, fn="Transform2::from_operations"),
+                            witness=dom + [valid]))
+            if oks:
+                from mirexec import merge_values
+                mat = merge_values(oks) if len(oks) > 1 else oks[0][1]
+                M = mat.fields[0].fields
+                row = M[0:3] if which == 0 else M[3:6]
+                orow = M[3:6] if which == 0 else M[0:3]
+                oexp = (0.0, 1.0, 0.0) if which == 0 else (1.0, 0.0, 0.0)
+                qs.append(Query("component %d, %d characters: the parsed row is (coef x, coef y, constant) of the expression, the other row and the bottom row are untouched" % (which, L),
+                                dom + pc + [valid, is_ok, T.bor(neq_any([(row[0], cx), (row[1], cy), (row[2], k)]), neq_any(list(zip(orow, oexp))), neq_any(list(zip(M[6:9], (0.0, 0.0, 0.0)))))], timeout=120,
+                                meta=dict(L=L, which=which, fn="Transform2::from_operations"), witness=dom + [valid]))
+            pcond = T.bor(*[T.band(*p[0]) for p in pans]) if pans else False
+            qs.append(Query("component %d, %d arbitrary characters: no panic (the result is Ok or Err)" % (which, L), dom + [pcond], timeout=60, meta=dict(L=L, which=which, panics=[p[1][:50] for p in pans][:5])))
+    # dimension count: one component and three components are errors
+    for txt, want in (("(x)", "Err"), ("(x, y, x)", "Err"), ("x,y", "Ok"), ("", "Err")):
+        rv, pc, _ = E.run(ex, f_op, [E.ByRef(Agg("str", [txt]))])
+        got = rv.alts[0][1] if rv.concrete() else "?"
+        qs.append(Query("%r is %s" % (txt, want), [got != want], meta=dict(input=txt, got=got), nontrivial=False))
+    done = run_queries(qs)
+
+    def replay(q):
+        L, which = q.meta.get("L"), q.meta.get("which")
+        if L is None:
+            return None
+        m = q.model
+        chs = []
+        for i in range(L):
+            v = m.get("c%d" % i)
+            if v is None:
+                v = 32
+            chs.append(chr(int(v)))
+        comp = "".join(chs)
+        text = "(%s,y)" % comp if which == 0 else "(x,%s)" % comp
+        out = native_eval([dict(fn="Transform2::from_operations", args=[text])])[0]
+        # independent concrete evaluation of the grammar
+        want = py_parse_component(comp)
+        if out.get("panic"):
+            return ("violated", "Transform2::from_operations(%r) panics" % text, dict(kind="eval", fn="Transform2::from_operations", input=text), dict(clause="parser-panic"))
+        if want is not None:
+            if "ok" not in out:
+                return ("violated", "Transform2::from_operations(%r) is an error although the component is in the grammar (denotes %s)" % (text, want), dict(kind="eval", fn="Transform2::from_operations", input=text), dict(clause="parser-rejects"))
+            M = [unjf(v) for v in out["ok"]]
+            row = M[0:3] if which == 0 else M[3:6]
+            if any(abs(r_ - w_) > 1e-12 for r_, w_ in zip(row, want)):
+                return ("violated", "Transform2::from_operations(%r) gives row %s, the expression denotes %s" % (text, row, list(want)), dict(kind="eval", fn="Transform2::from_operations", input=text), dict(clause="parser-denotation"))
+        return ("spurious", "real parser agrees with the grammar on %r" % text)
+    for qq in done:
+        record(res, qq, replay)
+    res.functions = used_fns(ex)
+    res.stubs = summaries_used()
+    res.bounds = ["components of %s characters over the ASCII range (commas and parentheses excluded inside a component), each of the two components in turn with the other fixed; front end (trim/split) on concrete separators" % (list(lens),)]
+    res.assumptions = ["grammar: optional sign, terms x | y | d | d/d' (d' non-zero), joined by + or -, spaces anywhere, each of x, y, constant at most once ('*' and multi-digit numbers are outside the stated grammar)",
+                       "non-ASCII input only through 'any other scalar value takes the error arm'"]
+
+
+def py_parse_component(comp):
+    """concrete reference: -> (cx, cy, k) or None if not in the grammar"""
+    import re as _re
+    s_ = comp.replace(" ", "")
+    if not s_:
+        return None
+    toks = _re.findall(r"[+-]|x|y|\d/[1-9]|\d|.", s_)
+    cx = cy = k = 0.0
+    sx = sy = sk = False
+    sign = 1.0
+    expect = True
+    first = True
+    for tk in toks:
+        if tk in "+-":
+            if not (first or not expect):
+                return None
+            if first and not expect:
+                return None
+            sign = -1.0 if tk == "-" else 1.0
+            expect = True
+            first = False
+            continue
+        first = False
+        if not expect:
+            return None
+        if tk == "x":
+            if sx:
+                return None
+            cx, sx = sign, True
+        elif tk == "y":
+            if sy:
+                return None
+            cy, sy = sign, True
+        elif _re.fullmatch(r"\d/[1-9]", tk):
+            if sk:
+                return None
+            k, sk = sign * int(tk[0]) / int(tk[2]), True
+        elif _re.fullmatch(r"\d", tk):
+            if sk:
+                return None
+            k, sk = sign * int(tk), True
+        else:
+            return None
+        sign = 1.0
+        expect = False
+    if expect:
+        return None
+    return (cx, cy, k)
+
+
+PROPS = {"C12": c12, "C13": c13, "C14": c14, "C15": c15, "C16": c16, "C04": c04, "C10": c10, "C03": c03, "C02": c02, "C08": c08, "C09": c09, "C01": c01, "C17": c17}
 
 
 
